@@ -20,7 +20,7 @@ CHECK_TEXT = {
         "technique": "deterministic simulation: seeded write cycles with torn batches, outages and device resets; register shadow model over the device write log",
         "design_ref": "DESIGN.md 3 SIM-H, 4.C24",
         "level_text": ("Seeded search over write cycles with strictly increasing commanded values (age readable from the "
-                       "value), torn batches, pending-flush failures, outages across both time-outs and reconnects with "
+                       "value) or values that go back to the one before the last change (revert mode), torn batches, pending-flush failures, outages across both time-outs and reconnects with "
                        "device memory reset; the device write log must never show an older value after a newer one, a "
                        "flushed buffered value must be the latest buffered one, and after every clean cycle in state OK the "
                        "device memory equals the latest commanded values."),
@@ -40,21 +40,21 @@ def _e(text, ref, tech="deterministic simulation of the real engine tick by tick
 
 
 CHECK_TEXT.update({
-    "C01": _e("Seeded live-edit histories at drawn ticks against the real Engine/MethodManager/HotSwapVisitor: no effect token outside Alarm/macro bodies twice, reported method state monotone across accepted edits, started-line edits rejected without side effect, legal edits accepted, appended lines run. On this tree two genuine defects (state lost, re-execution) are known findings, so the check currently decides the remaining clauses.", "DESIGN.md 4.C01"),
-    "C02": _e("Generated methods without requests run to quiescence: tokens outside repeating scopes at most once, siblings in source order, trailing whitespace never passed, and in the interrupt-free fragment the effect sequence equals an independent reference walk.", "DESIGN.md 4.C02"),
-    "C03": _e("Thresholds (s/min/h/L/CV under Base changes) and Waits at exact 0.1 s ticks: an instruction never starts before its scope clock, as the interpreter saw it, reached the threshold; the instruction after Wait: d starts within [d, d+0.1 s].", "DESIGN.md 4.C03"),
+    "C01": _e("Seeded live-edit histories at drawn ticks against the real Engine/MethodManager/HotSwapVisitor: no effect token outside Alarm/macro bodies twice, reported method state monotone across accepted edits, edits of lines that have started at any time in the run (also macro body lines reset by a later call, macro definitions that have run) rejected without side effect, legal edits accepted, appended lines run. On this tree two genuine defects (state lost, re-execution) are known findings, so the check currently decides the remaining clauses.", "DESIGN.md 4.C01"),
+    "C02": _e("Generated methods without requests run to quiescence: tokens outside repeating scopes at most once, siblings in source order, trailing whitespace never passed, in the interrupt-free fragment the effect sequence equals an independent reference walk, and a body that runs again (Alarm re-armed, macro called again) produces its lines in order, each once per invocation.", "DESIGN.md 4.C02"),
+    "C03": _e("Thresholds (s/min/h/L/CV under Base changes) and Waits at exact 0.1 s ticks: an instruction never starts before its scope clock, as the interpreter saw it, reached the threshold, and with base s it starts exactly one tick after the first waiting tick whose clock is not below the threshold; the instruction after Wait: d starts within [d, d+0.2 s], in every invocation of a repeating scope no earlier than d.", "DESIGN.md 4.C03"),
     "C04": _e("Watch/Alarm conditions are re-evaluated by the harness every tick: a body activation needs a tick with the condition true (or an accepted force); Watch bodies activate once; no activation after an accepted cancel.", "DESIGN.md 4.C04"),
     "C05": _e("Active blocks rebuilt from emitter events after every tick: single ancestor chain, Block tag = innermost, End block ends the innermost, nothing ended twice.", "DESIGN.md 4.C05"),
-    "C06": _e("Control-command sequences with ticks in between: System State, control-state message and Run Id agree after every tick; a user command is accepted exactly when valid in the state at request time; run ids fresh.", "DESIGN.md 4.C06"),
+    "C06": _e("Control-command sequences with ticks in between: System State, control-state message and Run Id agree after every tick; a user command is accepted exactly when valid in the state at request time; run ids fresh; in the fragment with one command in flight the control state follows a transition model with latencies.", "DESIGN.md 4.C06"),
     "C07": _e("Clock deltas per tick under arbitrary increments and control sequences: Process/Run Time zero at run start and monotone, Process Time only over Running ticks, Block/Scope Time not while Paused/Holding/error-paused.", "DESIGN.md 4.C07"),
     "C08": _e("Register memory of the simulated hardware after engine start and after every tick: safe-valued outputs hold the safe value before the first run, after Stop and during pauses; no other write while Stopped. Two genuine defects are known findings.", "DESIGN.md 4.C08"),
     "C09": _e("Shadow model of the outputs before each Pause over several runs per engine life time: Unpause restores exactly those values; an Unpause after an error pause changes nothing.", "DESIGN.md 4.C09"),
-    "C10": _e("Stop/Restart at drawn ticks with long-running, overlapping and failing commands: no command instance left, run-stopped run log conclusive for every executed UOD command, simulations and run id cleared.", "DESIGN.md 4.C10"),
-    "C11": _e("Probe-command life cycle from the callbacks: init once before the first exec, finalize exactly once, never two live instances of one command or of an overlap group, every initialized instance finalized after the final Stop.", "DESIGN.md 4.C11"),
-    "C12": _e("Cancel/force requests at drawn ticks on offered, arbitrary and unknown run-log items: offered requests accepted and effective, others change nothing. Five genuine defects of cancel/force are known findings.", "DESIGN.md 4.C12"),
+    "C10": _e("Stop/Restart at drawn ticks with long-running, overlapping and failing commands: no command instance left (also for commands a user started while the run was stopping), run-stopped run log conclusive for every executed UOD command (matched by invocation id), simulations and run id cleared.", "DESIGN.md 4.C10"),
+    "C11": _e("Probe-command life cycle from the callbacks: init once before the first exec, finalize exactly once, never two live instances of one command or of an overlap group, one command object per invocation, every initialized instance finalized after the final Stop.", "DESIGN.md 4.C11"),
+    "C12": _e("Cancel/force requests at drawn ticks on offered, arbitrary and unknown run-log items: offered requests accepted and effective (a cancelled Watch never runs its body, a cancelled command - identified by its invocation - never executes again), others change nothing. Five genuine defects of cancel/force are known findings.", "DESIGN.md 4.C12"),
     "C13": _e("Malformed methods, junk injections, unknown commands and request storms: no exception leaves Engine.tick or a request handler; a failing instruction pauses with Method Status Error and a failed line; Stop stays effective.", "DESIGN.md 4.C13"),
     "C14": _e("Injected snippets at drawn ticks, around pauses/holds and before live edits: each injected Mark takes effect at most once and never in a tick entered Paused/Holding; accepted injections into a Running run take effect.", "DESIGN.md 4.C14"),
-    "C15": _e("Run log produced every few ticks in every SIM-E profile: producible, sorted, distinct ids, end >= start, concluded items have an end and are not offered.", "DESIGN.md 4.C15"),
+    "C15": _e("Run log produced every few ticks in every SIM-E profile: producible, sorted, distinct ids, end >= start, concluded items have an end and are not offered, every line reported executed has a completed (or cancelled) item.", "DESIGN.md 4.C15"),
     "C16": _e("Every queued tag update inspected after its tick: tick_time within [engine start, end of this tick's span), per tag non-decreasing, a value changed in this tick stamped in this tick.", "DESIGN.md 4.C16"),
     "C20": _e("The editor's semantic analysis, built from the definitions the engine publishes, gates generated methods; accepted ones are executed with trajectories that drive all conditions; no run-time failure by unknown name, rejected argument or incompatible units. Weakest fit of the family (programs x configurations); no faults involved.", "DESIGN.md 4.C20",
               "deterministic simulation as executor behind the analyzer gate (virtual time makes every accepted line reachable)"),
